@@ -50,5 +50,6 @@ cc8deaf C15
 7fe31b5 C17
 edbff3e C17
 9504b66 C17
+47dfb07 C14 C05
 LIST
 echo "REGRESS-DONE" >> "$out"
